@@ -271,7 +271,7 @@ func (f File) Canonical() string {
 
 var commentTexts = []string{"", " ", " c", " c d ", "#x", " é!", "!/usr/bin/env spok"}
 var strTexts = []string{"x", "a b", "é.go", "**/*.go", "", "./bin/x-1", `C:\temp\new`, `%s\t%d\n a\\b`, "#{}(),:=->task"}
-var cmdTexts = []string{"echo a", "echo {{.X}}", "a  b", "echo $X", "go test ./...", `echo "q" | tr a b > f`, `echo don't stop`, `echo 5\" x`, `echo {{ .X }}{{ .X }}/{{.X}}`}
+var cmdTexts = []string{"echo a", "echo {{.X}}", "a  b", "echo $X", "go test ./...", `echo "q" | tr a b > f`, `echo don't stop`, `echo 5\" x`, `echo {{ .X }}{{ .X }}/{{.X}}`, `cd docs ;`}
 
 func argChoices() []Arg {
 	return []Arg{{false, "x.go"}, {false, "**/*.é"}, {true, "dep"}, {true, "é_b"}, {false, ""}, {false, `a\tb\\c`}}
